@@ -24,6 +24,7 @@ const (
 	VerifPtDeleteBeforeFlush = 106 // DeleteNode before FlushSession
 	VerifPtGCBeforeTryLock   = 107 // GC before the try-lock
 	VerifPtGCHandOff         = 108 // collectDead before handing a list to the workers
+	VerifPtGCPassDone        = 109 // GC after the pass, before releasing the try-lock
 	VerifPtStoreMkdir        = 120 // StoreToDisk after a MkdirAll
 	VerifPtStoreOpened       = 121 // StoreToDisk after a shard/delta file was opened
 	VerifPtStoreManifest     = 122 // StoreToDisk after a manifest WriteFile (arg: 0 nitro.json, 1 files, 2 checksums, 3 delta files, 4 delta checksums)
